@@ -8,6 +8,7 @@ import (
 	"os"
 	"os/exec"
 	"path/filepath"
+	"runtime/pprof"
 	"strings"
 	"sync"
 	"sync/atomic"
@@ -17,6 +18,12 @@ import (
 
 // WorkerMain is the body of `vcheck worker-fe <dir> <libs>`: read Projects, write Results.
 func WorkerMain(dir, libs string) {
+	if pf := os.Getenv("VERIF_CPUPROFILE"); pf != "" {
+		if f, err := os.Create(fmt.Sprintf("%s.%d", pf, os.Getpid())); err == nil {
+			pprof.StartCPUProfile(f)
+			defer pprof.StopCPUProfile()
+		}
+	}
 	in := json.NewDecoder(bufio.NewReaderSize(os.Stdin, 1<<20))
 	// the compiler may print to stdout; keep the result channel on a private descriptor
 	fd, err := syscall.Dup(1)
@@ -72,6 +79,8 @@ type Pool struct {
 	seq     int32
 	free    chan *worker
 	Calls   int64
+	// Env is added to the environment of the worker processes.
+	Env []string
 }
 
 func NewPool(scratch, libs string, n int) *Pool {
@@ -92,6 +101,9 @@ func (p *Pool) spawn() *worker {
 	out, _ := cmd.StdoutPipe()
 	tb := &tailBuf{}
 	cmd.Stderr = tb
+	if len(p.Env) > 0 {
+		cmd.Env = append(os.Environ(), p.Env...)
+	}
 	if err := cmd.Start(); err != nil {
 		fmt.Fprintln(os.Stderr, "cannot start worker:", err)
 		os.Exit(2)
@@ -104,6 +116,9 @@ func (w *worker) kill() {
 		return
 	}
 	w.in.Close()
+	if os.Getenv("VERIF_CPUPROFILE") != "" {
+		time.Sleep(1500 * time.Millisecond) // let the worker see EOF and flush its profile
+	}
 	w.cmd.Process.Kill()
 	w.cmd.Wait()
 	os.RemoveAll(filepath.Dir(w.dir))
